@@ -1,9 +1,10 @@
 // vh-c17 is the correspondence / oracle harness of property C17 (package chk): it runs the real
 // chk helpers against a capturing testing.TB on generated result lists, Get responses and client
 // errors, and writes
-//   <out>/cases.json   the generated cases (replayable inputs)
-//   <out>/cases_<k>.v  the same cases with fatal / not fatal, as Gallina terms for Tools/ChkCases.v
-//   <out>/impl.json    verdicts of the model-free oracle (direct search for the wanted item) and statistics
+//
+//	<out>/cases.json   the generated cases (replayable inputs)
+//	<out>/cases_<k>.v  the same cases with fatal / not fatal, as Gallina terms for Tools/ChkCases.v
+//	<out>/impl.json    verdicts of the model-free oracle (direct search for the wanted item) and statistics
 package main
 
 import "verifharness/drv"
